@@ -433,7 +433,15 @@ namespace xsimd
         template <size_t N, class A>
         XSIMD_INLINE batch<uint16_t, A> rotate_left(batch<uint16_t, A> const& self, requires_arch<avx512bw>) noexcept
         {
-            return _mm512_alignr_epi8(self, self, N);
+            // _mm512_alignr_epi8 works on each 128-bit lane separately: permute over the whole register instead
+            struct rotate_generator
+            {
+                static constexpr uint16_t get(size_t index, size_t size)
+                {
+                    return static_cast<uint16_t>((index + N) % size);
+                }
+            };
+            return _mm512_permutexvar_epi16(make_batch_constant<uint16_t, rotate_generator, A>().as_batch(), self);
         }
         template <size_t N, class A>
         XSIMD_INLINE batch<int16_t, A> rotate_left(batch<int16_t, A> const& self, requires_arch<avx512bw>) noexcept
